@@ -497,6 +497,18 @@ def run_shard(ctx: Ctx, rec: Recorder) -> None:
                 rec.case(s, nontrivial=L > 0)
                 judge(rec, s, "exh")
     rec.exhaustive_parts.append(f"all strings of length<={depth_all} over the 20-symbol alphabet behind each of {PREFIXES}; length<={depth_http} behind 'http://'")
+    # (i-b) call histories: one host spelling under schemes that are and are not normalised, in both orders
+    hi = 0
+    for h in HISTORY_HOSTS:
+        for rot in range(len(HISTORY_SCHEMES)):
+            for tail in ("/p", "", "/P?Q#F"):
+                hi += 1
+                if not ctx.mine(hi):
+                    continue
+                order = HISTORY_SCHEMES[rot:] + HISTORY_SCHEMES[:rot]
+                urls = [sc + h + tail for sc in order]
+                rec.case(["history", urls])
+                judge_history(rec, urls + urls[:3])
     # (ii) grammar, (iii) random text
     n_g = ctx.pick(20000, 700000)
     for i in range(n_g):
@@ -512,7 +524,39 @@ def run_shard(ctx: Ctx, rec: Recorder) -> None:
             judge(rec, s, "random")
 
 
+HISTORY_HOSTS = ["EXAMPLE.com", "MiXeD.Example.TEST", "b\u00fccher.example", "B\u00dcCHER.example", "[FE80::ABCD]", "[2001:DB8::1]", "UPPER.test:8080", "user@HOST.test", "xn--Bcher-kva.example", "A.B.C.D.E.test."]
+HISTORY_SCHEMES = ["ftp://", "http://", "socks5h://", "HTTPS://", "//", "ws://", "http://", "", "https://"]
+
+
+def judge_history(rec: Recorder, urls: list[str]) -> None:
+    """parse_url is a function of its argument: the same string must give the same result whatever was parsed
+    before it (module-level caches keyed on too little would break this), and every result along the way is
+    judged by the ordinary monitors."""
+    from urllib3.exceptions import LocationParseError
+    from urllib3.util.url import parse_url
+
+    first: dict[str, typing.Any] = {}
+    for i, u in enumerate(urls):
+        n_before = rec.failure_count
+        judge(rec, u, "history")
+        if rec.failure_count != n_before and rec.failures and rec.failures[-1]["case"].get("url") == u:
+            rec.failures[-1]["case"] = {"history": urls[: i + 1], "gen": "history"}
+        try:
+            r: typing.Any = tuple(parse_url(u))
+        except LocationParseError:
+            r = "rejected"
+        rec.mon("history_purity")
+        if u in first and first[u] != r:
+            rec.fail({"history": urls[: i + 1], "gen": "history"}, "result-depends-on-call-history", {"url": u, "first": repr(first[u])[:150], "now": repr(r)[:150]}, f"parse_url({u!r}) returned {r!r} after having returned {first[u]!r} earlier in the same process")
+            return
+        first.setdefault(u, r)
+
+
 def replay(case: dict[str, typing.Any], ctx: Ctx, rec: Recorder) -> None:
+    if "history" in case:
+        rec.case(case["history"])
+        judge_history(rec, case["history"])
+        return
     if "url" in case:
         rec.case(case["url"])
         judge(rec, case["url"], "replay")
